@@ -145,7 +145,12 @@ pub struct Walker<'a> {
     pub sample_mod: u64,
     pub seed: u64,
     pub max_logged_mismatches: u64,
+    /// (k, K): this process handles the k-th share of the edges at depth PART_DEPTH (all processes
+    /// execute the few edges above that depth; only share 0 counts and compares them)
+    pub part: (u64, u64),
+    pub part_counter: u64,
 }
+const PART_DEPTH: usize = 7;
 
 impl<'a> Walker<'a> {
     fn ensure_logged(&mut self, stack: &mut Vec<Frame>) -> usize {
@@ -170,6 +175,18 @@ impl<'a> Walker<'a> {
         self.stats.max_depth = self.stats.max_depth.max(stack.len());
         let Some(edges) = self.kids.get(&node) else { return };
         for e in edges {
+            let depth = stack.len();
+            let mut silent = false;
+            if self.part.1 > 1 {
+                if depth < PART_DEPTH {
+                    silent = self.part.0 != 0;
+                } else if depth == PART_DEPTH {
+                    self.part_counter += 1;
+                    if self.part_counter % self.part.1 != self.part.0 {
+                        continue;
+                    }
+                }
+            }
             let mut run = stack.last().unwrap().run.clone();
             let mut ecall = e.call.clone();
             if run.digest_kind == "ownership:treasury" {
@@ -180,6 +197,16 @@ impl<'a> Walker<'a> {
                 }
             }
             let (call, out) = run.step(&ecall);
+            if silent {
+                // executed only to reach this process's share; counted and compared by share 0
+                let has_kids = self.kids.contains_key(&e.id);
+                stack.push(Frame { run, via: Some((call, out)), line: None });
+                if has_kids {
+                    self.walk(stack, e.id);
+                }
+                stack.pop();
+                continue;
+            }
             self.stats.executed += 1;
             let kind = match call["m"].as_str().unwrap_or("?") {
                 "hook" => call["inner"].as_str().unwrap_or("?").to_string(),
@@ -240,7 +267,7 @@ pub fn setup_from_model(m: &Value) -> Setup {
 /// Runs the whole tree. Returns the statistics.
 /// MODEL.kind selects preamble and digest: "staking" (MilkyWay.tla), "ownership" (OwnershipMC.tla, run
 /// against the contract named by `target`), "treasury" (TreasuryMC.tla).
-pub fn run_tree(text: &str, sink: &mut Sink, sample_mod: u64, seed: u64, target: &str) -> Result<Stats, String> {
+pub fn run_tree(text: &str, sink: &mut Sink, sample_mod: u64, seed: u64, target: &str, part: (u64, u64)) -> Result<Stats, String> {
     let (model, kids, n) = parse(text);
     let model = model.ok_or("no MODEL line in the TLC output")?;
     let kind = model["kind"].as_str().unwrap_or("staking").to_string();
@@ -273,6 +300,8 @@ pub fn run_tree(text: &str, sink: &mut Sink, sample_mod: u64, seed: u64, target:
         sample_mod,
         seed,
         max_logged_mismatches: 50,
+        part,
+        part_counter: 0,
     };
     let mut stack = vec![Frame { run, via: None, line: Some(root_line) }];
     w.walk(&mut stack, 0);
